@@ -561,6 +561,12 @@ extern "C"
         me->kind = K_MUNLOCK;
         me->obj = m;
         park(me);
+        if (G.opt.post_release_points)
+        { // the release has taken effect; whoever wants the lock may now run before we continue
+            me->kind = K_YIELD;
+            me->obj = nullptr;
+            park(me);
+        }
         return 0;
     }
     int pthread_cond_wait(pthread_cond_t *c, pthread_mutex_t *m)
@@ -706,6 +712,12 @@ extern "C"
         // in front of its post, and that thread must NOT inherit a happens-before edge from here.)
         if (__tsan_release)
             __tsan_release(s);
+        if (G.opt.post_release_points)
+        {
+            me->kind = K_YIELD;
+            me->obj = nullptr;
+            park(me);
+        }
         return 0;
     }
     int sem_getvalue(sem_t *s, int *v)
